@@ -762,7 +762,17 @@ class AuditMiddleware(Middleware):
     def __call__(self, market):
         tr = self.tr
         mb = market.market_book
-        tr.updates.append({"tick": tr.tick, "market": market.market_id, "pt": mb.publish_time_epoch, "status": mb.status, "seq": tr.nseq()})
+        tr.updates.append(
+            {
+                "tick": tr.tick,
+                "market": market.market_id,
+                "pt": mb.publish_time_epoch,
+                "status": mb.status,
+                "seq": tr.nseq(),
+                "closed": market.closed,
+                "cleared_flags": (len(market.orders_cleared), len(market.market_cleared)),
+            }
+        )
         for order in market.blotter:
             sample_order(tr, order, "mw", market)
         for obs in tr.mw_observers:
